@@ -21,7 +21,9 @@ def c16():
               "readiness notifier, buffer 8..2048 bytes with a generated window (offset, transfer_size) inside it, persistent or dispatch "
               "event flags, callback-after-every-read on/off, timeout none/120-200 ms/2 s, first transfer inside tp_task_start_ex or scheduled, "
               "payload fragmented into 1-9 arrivals with short or long (5 x timeout) pauses, data queued before the start, peer stays open / "
-              "closes / half-closes, callback policy (continue until full/EOF, or stop / destroy / disable inside the first callback), window "
+              "closes / half-closes, callback policy (continue until full/EOF, stop / destroy / disable inside the first callback, or - dispatch tasks - "
+              "decline without stopping, stay paused longer than the timeout, re-enable), a dup()ed descriptor with CLOSE_ON_DESTROY, windows that reach "
+              "past the buffer (must be refused by the direct first transfer), window "
               "re-arming, small SO_SNDBUF for send tasks, schedule plan, and epoll_ctl/timerfd fault plan. Non-trivial: >=2 callbacks, window "
               "not at the buffer start, EOF/timeout reported, stop from inside a callback, or a fault. "
               "Unit C16_conn, check pkt_histories: datagram receiver (tp_task_pkt_rcvr_create) on an AF_UNIX SOCK_DGRAM pair or UDP 127.0.0.1, "
